@@ -299,10 +299,18 @@ def include_rules(report, p, modname: str, ids, why: str):
         _depth[0] += 1
         try:
             mod.run(sub, p)
+        except AnalysisError as e:
+            # the other property's module could not interpret something; rules it completed before that point are still
+            # usable here. A rule counts as completed when a later rule had already been started when the error came.
+            sub.aborted_at = sub.rules[-1].id if sub.rules else None
+            sub.abort_reason = str(e)
         finally:
             _depth[0] -= 1
         _sub_cache[key] = sub
     sub = _sub_cache[key]
+    aborted_at = getattr(sub, "aborted_at", "-")
+    if aborted_at != "-" and (aborted_at is None or aborted_at in ids or not set(ids) <= {r.id for r in sub.rules}):
+        raise AnalysisError(f"shared rule(s) {sorted(ids)} of {modname.upper()} could not be evaluated: {sub.abort_reason}")
     have = {r.id for r in report.rules}
     for rr in sub.rules:
         if rr.id in ids and rr.id not in have:
